@@ -34,6 +34,7 @@ GROUPS_C02 = [
     ("KF-C02-11", r"simplify_boolean_expressions_symmath", "simplify_boolean_expressions_symmath applies sympy's boolean simplification to operands with side effects / non-boolean values: evaluation order and the number of calls change."),
 ]
 GROUPS_C01 = [
+    ("KF-C01-10", r"/rulefam/", "Rule-level design findings of the hand-written per-rule programs seen through the whole pipeline (same programs, same failures as KF-C02-05 and KF-C02-12..24: deletion of definitions with import-time effects, defaultdict reads, comprehension inlining across a mutating call, dict key order, evaluation order of dict displays, stability of sorted/reversed/max with ties, removed copies, late binding of lambdas, zip(*zip(*x)), static-method extraction vs overrides, loop variable after filter(), reordered effectful tests in simplify_if_control_flow)."),
     ("KF-C01-01", r"/blk/", None),
     ("KF-C01-02", r"/grammar/", None),
     ("KF-C01-03", r"/loopvar/|replace_nested_loops|replace_for_loops", None),
@@ -79,8 +80,8 @@ def main():
     old = {f["id"]: f for f in kf["findings"] if f["property"] == prop}
     kf["findings"] = [f for f in kf["findings"] if not (f["property"] == prop and f["id"] in {g[0] for g in groups})]
     for fid, pat, what in groups:
-        if what is None:
-            what = old[fid]["what"]
+        if what is None or fid in old:
+            what = old[fid]["what"] if fid in old else what
         if prop == "C01":
             by[fid] = c01_globs(by[fid])
         if "--replace" not in sys.argv and fid in old:
